@@ -16,21 +16,22 @@ from checks import register
 
 POOLS = {
  # name: (profile, allow, scenarios quick, scenarios thorough, first seed offset)
- "general": ("general", "", 240, 5000, 0),
- "members": ("members", "", 144, 3000, 20000),
- "life": ("life", "", 144, 3000, 40000),
- "hand": ("hand", "", 144, 3000, 60000),
- "fault": ("fault", "", 96, 2500, 80000),
+ "general": ("general", "", 240, 2400, 0),
+ "members": ("members", "", 144, 1440, 20000),
+ "life": ("life", "", 144, 1440, 40000),
+ "hand": ("hand", "", 144, 1440, 60000),
+ "fault": ("fault", "", 96, 960, 80000),
  "timeout": ("timeout", "", 14, 60, 90000),   # one process per scenario: each waits out the 17 s response time-out
  # quarantine pools: each contains the trigger of one recorded finding and exists to confirm exactly that finding
  "kf-midhand-leave": ("kf", "kf-midhand-leave", 24, 200, 100000),
  "kf-lost-blind-update": ("kf", "kf-lost-blind-update", 16, 100, 110000),
+ "kf-open-window": ("kf", "kf-open-window", 16, 96, 140000),
  "kf-update-partial": ("members", "kf-update-partial", 48, 400, 120000),
  "kf-shortdeck": ("general", "shortdeck", 48, 400, 130000),
 }
 
 
-LIFE_CONFORMANCE_POOLS = ("general", "members", "life", "hand", "fault", "tlc-schedules")
+LIFE_CONFORMANCE_POOLS = ("general", "members", "life", "hand", "fault", "tlc-schedules", "kf-open-window", "kf-lost-blind-update")
 
 
 def tree_digest():
@@ -89,7 +90,7 @@ def run_pool(name, tier, d, via=None, actors=False, bots=False):
     return run_jobs(name, jobs, d, procs)
 
 
-TLC_SCHEDULES = (96, 1500)   # behaviours of TableLifeSim turned into driver schedules (quick, thorough)
+TLC_SCHEDULES = (96, 960)   # behaviours of TableLifeSim turned into driver schedules (quick, thorough)
 
 
 def run_tlc_pool(tier, d):
